@@ -8,3 +8,4 @@ import Vise.Render
 import Vise.Vm
 import Vise.Engine
 import Vise.Db
+import Vise.PgTx
